@@ -351,6 +351,10 @@ def _h(x):
 # applying one operation to the real reactor
 
 
+class AlphabetError(Exception):
+    """A defect of the alphabet itself (harness error), as opposed to an operation that raises."""
+
+
 def _value(o, pname, v):
     import numpy as np
 
@@ -374,7 +378,7 @@ def apply(r, cs, tg, op):
         # vacuity guard: a parameter operation must target a parameter the database stores
         for sel, name in [(x[0], op[1]) for x in op[2]] if k == "ragged" else [(op[1], op[2])]:
             if not tg[sel].p.paramDefs[name].saveToDB:
-                raise RuntimeError("c04 alphabet: %s.%s is not a persistent parameter" % (sel, name))
+                raise AlphabetError("c04 alphabet: %s.%s is not a persistent parameter" % (sel, name))
     if k == "p":
         o = tg[op[1]]
         o.p[op[2]] = _value(o, op[2], op[3])
@@ -443,5 +447,5 @@ def apply(r, cs, tg, op):
 
         geometryConverters.ThirdCoreHexToFullCoreChanger(cs).convert(r)
     else:
-        raise ValueError("unknown op %r" % (op,))
+        raise AlphabetError("unknown op %r" % (op,))
     return "ok"
